@@ -239,6 +239,7 @@ func runC01(c *Ctx) {
 	// ---------- O-7 ----------
 	c.checkLivenessGlue()
 	c.checkClosedBeforeTeardown("O-7 liveness glue")
+	c.checkLoopTimers("O-7 liveness glue", "client/lib")
 	if c.Thorough {
 		// thorough: every package of the repository
 		c.checkLoopCapture("O-9 per-connection goroutines own their variables")
@@ -563,27 +564,52 @@ func (c *Ctx) checkLivenessGlue() {
 func (c *Ctx) checkClosedBeforeTeardown(rule string) {
 	p := c.P
 	cl := p.Fn("client/lib", "(*WebRTCPeer).Close")
-	cleanup := p.Fn("client/lib", "(*WebRTCPeer).cleanup")
-	if cl == nil || cleanup == nil {
-		c.undecided(rule, "WebRTCPeer.Close/cleanup", "-", "anchor does not resolve")
+	if cl == nil {
+		c.undecided(rule, "WebRTCPeer.Close", "-", "anchor does not resolve")
 		return
 	}
+	cleanup := p.Fn("client/lib", "(*WebRTCPeer).cleanup") // may have been inlined away
+	// teardown actions: the cleanup helper, or the closes it consists of
+	isTeardown := func(in ssa.Instruction) bool {
+		ci, ok := in.(ssa.CallInstruction)
+		if !ok {
+			return false
+		}
+		if cleanup != nil && staticCallee(ci) == cleanup {
+			return true
+		}
+		n := calleeName(ci)
+		return strings.HasSuffix(n, "webrtc/v3.DataChannel).Close") || strings.HasSuffix(n, "webrtc/v3.PeerConnection).Close") ||
+			n == "(*io.PipeWriter).Close" || n == "(*io.PipeReader).Close"
+	}
 	n := 0
-	for _, site := range p.realCallers(cleanup) {
-		n++
-		fn := site.Parent()
+	for _, fn := range deepFns(cl, 2) {
+		if cleanup != nil && fn == cleanup {
+			continue
+		}
 		var closeOp ssa.Instruction
 		for _, op := range chanOpsIn(p, fn) {
 			if op.Dir == chClose && op.Class == "WebRTCPeer.closed" {
 				closeOp = op.Instr
 			}
 		}
-		good := closeOp != nil && belongsTo(fn, cl) && precedes(closeOp, site) && !canFollow(site, closeOp)
-		c.check(good, rule, "the peer is marked closed before its transport is torn down", p.instrPos(site), "close(c.closed) precedes cleanup() in Close's once body",
-			"cleanup() can run while Closed() still reports false: Pop hands the dying peer to the redial loop, whose preamble write fails and ends the session although healthy peers are available")
+		for _, d := range deepInstrs(fn, 2, isTeardown) {
+			if d.In.Parent() != fn && closeOp == nil {
+				continue // reported for the function that holds the close
+			}
+			if d.In.Parent() == fn || closeOp != nil {
+				if closeOp == nil {
+					continue
+				}
+				n++
+				good := precedes(closeOp, d.Top) && !canFollow(d.Top, closeOp)
+				c.check(good, rule, "the peer is marked closed before its transport is torn down", p.instrPos(d.Top), "close(c.closed) precedes the teardown in Close's once body",
+					"the transport can be torn down while Closed() still reports false: Pop hands the dying peer to the redial loop, whose preamble write fails and ends the session although healthy peers are available")
+			}
+		}
 	}
 	if n == 0 {
-		c.undecided(rule, "callers of WebRTCPeer.cleanup", p.Pos(cleanup.Pos()), "none found")
+		c.undecided(rule, "teardown after close(c.closed) in WebRTCPeer.Close", p.Pos(cl.Pos()), "no close of WebRTCPeer.closed followed by a teardown action found")
 	}
 }
 
@@ -633,5 +659,53 @@ func (c *Ctx) checkLoopCapture(rule string, rels ...string) {
 	}
 	if bad == 0 {
 		c.ok(rule, "goroutines started in loops capture only per-iteration variables", "-", fmt.Sprintf("%d go statements with closures inside loops examined", nGo))
+	}
+}
+
+// checkLoopTimers: a select inside a loop that waits on a timer waits on a
+// timer drawn in that iteration (time.After / time.NewTimer inside the loop), on
+// a ticker, or on a timer that is Reset inside the loop. A one-shot timer made
+// before the loop fires once: afterwards the loop either spins or, as in the
+// collection loop, never makes another pass.
+func (c *Ctx) checkLoopTimers(rule string, rels ...string) {
+	p := c.P
+	n := 0
+	for _, fn := range p.FnsIn(rels...) {
+		for _, op := range chanOpsIn(p, fn) {
+			if op.Sel == nil || op.Dir != chRecv || !inCycle(op.Instr.Block()) {
+				continue
+			}
+			ch := strip(op.Chan)
+			var src *ssa.Call
+			viaTimerField := false
+			if cc, _, ok := callResult1(ch); ok && calleeName(cc) == "time.After" {
+				src = cc
+			} else if base, f, okf := fieldLoad(ch); okf && f.Name() == "C" && f.Pkg() != nil && f.Pkg().Path() == "time" {
+				if cc, _, okc := callResult1(strip(base)); okc && (calleeName(cc) == "time.NewTimer" || calleeName(cc) == "time.NewTicker") {
+					src = cc
+					viaTimerField = calleeName(cc) == "time.NewTimer"
+					if calleeName(cc) == "time.NewTicker" {
+						continue
+					}
+				}
+			}
+			if src == nil {
+				continue
+			}
+			n++
+			sel := op.Instr.Block()
+			fresh := src.Parent() == fn && reachPath(sel, src.Block(), nil) != nil // re-executed by the loop
+			if !fresh && viaTimerField {
+				for _, ci := range callsTo(fn, "(*time.Timer).Reset") {
+					if reachPath(sel, ci.Block(), nil) != nil && inCycle(ci.Block()) {
+						fresh = true
+					}
+				}
+			}
+			c.check(fresh, rule, p.FnName(fn)+": the timer awaited in the loop is drawn (or reset) in every iteration", p.instrPos(op.Instr), "", "the loop waits on a one-shot timer created before the loop and never reset: after it has fired once the wait never ends (or ends at once) - the collection loop stops making passes and a proxy that dies later is never replaced")
+		}
+	}
+	if n == 0 {
+		c.okTrivial(rule, "timed selects inside loops", "-", "none")
 	}
 }
